@@ -900,8 +900,14 @@ fn expand_job(job: &J) -> J {
     let mut parser = Parser::from_lexer(Lexer::from_char_stream(def.chars()));
     let (kw, tr) = match catch_unwind(AssertUnwindSafe(|| parser.next())) {
         Ok(Some(Ok(Statement::SyntaxDefinition(sd)))) => {
-            let SyntaxDefBody(name, t) = sd.data;
-            (name, Transformer::Scheme(t))
+            // the transformer is taken from the parser's own syntax table (where parsing the definition has put it), not rebuilt here:
+            // the driver then does not depend on the shape of the Transformer type
+            let SyntaxDefBody(name, _t) = sd.data;
+            let found = parser.syntax_env.get(&name).map(|t| t.clone());
+            match found {
+                Some(t) => (name, t),
+                None => return json!({"def_err": {"kind": "verif.TransformerNotRegistered"}}),
+            }
         }
         Ok(Some(Err(e))) => return json!({"def_err": ser_error(&e)}),
         Err(_) => return json!({"def_panic": panic_record()}),
